@@ -243,4 +243,25 @@ CHECKS = {
                 "replayed on every run).",
         "technique": "Lean 4 theorems over R on a scalar-polymorphic model reusing the C05/C06/C07/C09 models and theorems + differential correspondence through the real CLI + independent numpy/einsum/CODATA oracle",
     },
+    "C14": {
+        "text": "Proved on the model: lazy_property caches are read-through memo tables; for ANY list of reads (repeated, calculate/"
+                "write_output twice, any order) on an acyclic graph every value equals the unique pure denotation "
+                "(c14_cache_history_free, c14_spec_exists_unique); a value read twice is equal with no hypothesis on the bodies; any "
+                "interleaving on several objects returns per object what it returns alone (historyMulti); instantiated on the "
+                "(name,isLazy,reads) tables of the three phonon-contribution classes re-translated from nonshear.py/shear.py every run "
+                "(rank certificate by decide +kernel). Set iteration = arbitrary permutation: update_config (C16), 6x6 assembly (C07), "
+                "writer registry (C15) order-free. fill.fill=fill for every ordered field/relations file/rectangular table without "
+                "case-duplicate columns when the first result satisfies the relations and the surviving columns still determine the "
+                "tensor; kernel-evaluated instance and counter-example (identically-zero independent component -> second call refuses "
+                "for rank). For a packaged system name the whole working directory (exists, files, also a file named like the system) "
+                "is irrelevant (fix 6f0d09b, regression witness). Correspondence: cache state of real objects (vars(obj)) after every "
+                "read of random single/multi-object histories vs Memo.history/historyMulti. Oracle: values vs fresh objects/first "
+                "read/closed forms of Q,Q1,Q2, inputs untouched; cij run / cij fill in subprocesses under PYTHONHASHSEED 0,1,random "
+                "and junk working directories, two calculations in one process in both orders (kept/released), random base reads, "
+                "calculate()/write_output() repeated: byte comparison of all output files; fill_cij twice on all nine systems.",
+        "note": COMMON_NOTE + "PARTIAL: hash randomisation, file system, BLAS threads, numba cache and third-party module state are runtime: "
+                "only their abstraction (arbitrary order / arbitrary environment / separate memo tables) is in a theorem; they are sampled "
+                "by the subprocess runs.",
+        "technique": "Lean 4 (free-monad memoisation model, induction over read histories, rank certificates by decide +kernel on translated tables, permutation lemmas, least-squares uniqueness for the fill fixed point) + cache-state correspondence on real objects + subprocess/in-process byte-identity oracle",
+    },
 }
